@@ -39,7 +39,7 @@ def classify(msg):
 
 
 def run_verus(path, timeout=600, rlimit=None, extra=None):
-    cmd = ['verus', os.path.basename(path), '--output-json', '--time', '--error-format=json']
+    cmd = ['verus', os.path.basename(path), '--output-json', '--time', '--error-format=json', '--multiple-errors', '20']
     if rlimit:
         cmd += ['--rlimit', str(rlimit)]
     if extra:
